@@ -107,6 +107,12 @@ def errToJson : Option RErr → Json
   | some .userRaise => Json.mkObj [("err", "Boom")]
   | some .badHeap => Json.mkObj [("err", "model-bad-heap")]
 
+/-- {"op":"tagmatch","name":..,"category":..,"var":..,"cat":..} -> check_element / match_tag -/
+def handleTag (j : Json) : Json :=
+  Json.mkObj [("match", matchTag (optStr j "category") (catOf (j.getObjValD "cat"))),
+              ("check", checkElement (optStr j "name") (optStr j "category") ((optStr j "var").getD "")
+                          (catOf (j.getObjValD "cat")))]
+
 def handle (j : Json) : Json :=
   let handlers := ((getArr j "handlers").map handlerOf).toArray
   let infos := ((getArr j "infos").map infoOf).toArray
